@@ -4,8 +4,18 @@
 // mutable state (a static scratch buffer, a cache, a lazily initialised table).
 //
 //   mtindep <section> <threads> <iterations> <seed>
-//   sections: parse usage format string hash own fv
+//   sections: parse usage format string hash own fv log dl iter
+#include <nitro/dl/dl.hpp>
+#include <nitro/env/get.hpp>
 #include <nitro/except/raise.hpp>
+#include <nitro/lang/enumerate.hpp>
+#include <nitro/lang/reverse.hpp>
+#include <nitro/log/attribute/message.hpp>
+#include <nitro/log/attribute/severity.hpp>
+#include <nitro/log/attribute/tag.hpp>
+#include <nitro/log/attribute/timestamp.hpp>
+#include <nitro/log/filter/severity_filter.hpp>
+#include <nitro/log/log.hpp>
 #include <nitro/format/format.hpp>
 #include <nitro/lang/fixed_vector.hpp>
 #include <nitro/lang/hash.hpp>
@@ -401,6 +411,143 @@ static std::vector<Job> jobs_fv()
     return j;
 }
 
+// ------------------------------------------------------------------------------------------------
+// logging: the logger TYPE is shared (that is how the library is used), the sink writes into a buffer of the
+// calling thread; what a thread's statements produce must not depend on what other threads log
+static thread_local std::string log_capture;
+struct CaptureSink
+{
+    void sink(nitro::log::severity_level, const std::string& rec)
+    {
+        log_capture += rec;
+        log_capture += '\n';
+    }
+};
+using LogRec = nitro::log::record<nitro::log::tag_attribute, nitro::log::message_attribute, nitro::log::severity_attribute,
+                                  nitro::log::timestamp_attribute>;
+template <typename R>
+struct LogFmt
+{
+    std::string format(R& r)
+    {
+        return std::to_string(static_cast<int>(r.severity())) + "|" + std::string(r.tag()) + "|" + r.message();
+    }
+};
+template <typename R>
+using LogFilter = nitro::log::filter::severity_filter<R>;
+using Log = nitro::log::logger<LogRec, LogFmt, CaptureSink, LogFilter>;
+
+static std::vector<Job> jobs_log()
+{
+    std::vector<Job> j;
+    for (int n = 0; n < 24; ++n)
+        j.push_back([n] {
+            return guarded([&] {
+                log_capture.clear();
+                int lazies = 0;
+                std::string text(static_cast<std::size_t>(n) * 9, static_cast<char>('a' + n));
+                Log::info() << "job " << n << " " << text;
+                Log::warn("tag") << n * 2.5 << ':' << [&] {
+                    ++lazies;
+                    return std::string("lazy text that is longer than a small buffer ") + std::to_string(n);
+                };
+                {
+                    auto s = Log::error(std::string("t") + std::to_string(n));
+                    s << "named ";
+                    s << n << [&]() -> const char* {
+                        ++lazies;
+                        return " c";
+                    };
+                }
+                Log::fatal() << std::hex << 255 - n;
+                Log::trace() << n;
+                return log_capture + "lazies=" + std::to_string(lazies);
+            });
+        });
+    return j;
+}
+
+// dl and env: every thread opens, uses and closes its own library objects; the environment is only read
+static std::string lib_a;
+static std::vector<Job> jobs_dl()
+{
+    std::vector<Job> j;
+    for (int n = 0; n < 12; ++n)
+        j.push_back([n] {
+            return guarded([&]() -> std::string {
+                std::ostringstream s;
+                s << hex(nitro::env::get("NITRO_VERIF_MT_INC")) << hex(nitro::env::get("NITRO_VERIF_MT_UNSET", "dflt"));
+                if (n % 3 == 0)
+                {
+                    try
+                    {
+                        nitro::dl::dl missing("/nonexistent/libnitro_verif_mt_" + std::to_string(n) + ".so");
+                        s << " opened?";
+                    }
+                    catch (nitro::dl::exception& e)
+                    {
+                        s << " E:" << e.dlerror();
+                    }
+                    return s.str();
+                }
+                nitro::dl::dl lib(lib_a);
+                auto f = lib.load<double(double)>("nitro_verif_fa");
+                auto g = f;
+                s << " " << f(n) << " " << g(n + 0.5);
+                if (n % 3 == 1)
+                {
+                    try
+                    {
+                        auto m = lib.load<double(double)>("nitro_verif_missing_" + std::to_string(n));
+                        s << " loaded?";
+                    }
+                    catch (nitro::dl::exception& e)
+                    {
+                        s << " E:" << e.dlerror();
+                    }
+                }
+                return s.str();
+            });
+        });
+    return j;
+}
+
+static std::vector<Job> jobs_iter()
+{
+    std::vector<Job> j;
+    for (int n = 0; n < 16; ++n)
+        j.push_back([n] {
+            return guarded([&] {
+                using nitro::lang::enumerate;
+                using nitro::lang::reverse;
+                std::ostringstream s;
+                std::vector<int> v;
+                for (int k = 0; k <= n; ++k)
+                    v.push_back(k * 3 + n);
+                const std::vector<int>& cv = v;
+                for (auto&& e : enumerate(v))
+                    e.value() += static_cast<int>(e.index());
+                for (auto&& e : enumerate(cv))
+                    s << e.index() << "=" << e.value() << ",";
+                for (auto&& x : reverse(cv))
+                    s << x << ";";
+                int arr[4] = { n, n + 1, n + 2, n + 3 }, brr[4] = { 9, 8, 7, n };
+                for (auto&& x : reverse(arr))
+                {
+                    s << x << "/";
+                    for (auto&& y : reverse(brr))
+                        s << y;
+                }
+                for (auto e : enumerate(std::vector<std::string>{ "a", std::string(30, 'b'), std::to_string(n) }))
+                    s << e.index() << e.value();
+                for (auto x : reverse({ n, 2, 3 }))
+                    s << x;
+                return s.str();
+            });
+        });
+    return j;
+}
+
 int main(int argc, char** argv)
 {
     if (argc < 5)
@@ -430,6 +577,15 @@ int main(int argc, char** argv)
         jobs = jobs_own();
     else if (section == "fv")
         jobs = jobs_fv();
+    else if (section == "log")
+        jobs = jobs_log();
+    else if (section == "dl")
+    {
+        lib_a = std::getenv("NITRO_VERIF_LIBA") ? std::getenv("NITRO_VERIF_LIBA") : "";
+        jobs = jobs_dl();
+    }
+    else if (section == "iter")
+        jobs = jobs_iter();
     else
         return 2;
 
